@@ -28,8 +28,15 @@ RULE = ("(submitters x messages, partial-write pattern, inbound traffic, schedul
 def cases(draw):
     nsub = draw(st.sampled_from([1, 1, 2, 3]))
     subs = []
+    bulk = nsub == 1 and draw(st.integers(0, 5)) == 0
     for s in range(nsub):
         k = draw(st.integers(1, 6 if nsub == 1 else 4))
+        if bulk:
+            # one call of send_messages() with a long list of small messages: list lengths around the powers of two
+            k = draw(st.sampled_from([31, 32, 33, 63, 64, 65, 100, 127, 128, 129, 192, 255, 256, 257]))
+            kinds = draw(st.sampled_from([["req"], ["req", "ans"], ["generic-req"]]))
+            subs.append({"msgs": [{"kind": kinds[j % len(kinds)], "size": 0} for j in range(k)], "api": "send_messages", "gap": 0})
+            continue
         msgs = [{"kind": draw(st.sampled_from(["req", "ans", "generic-req"])),
                  "size": draw(st.sampled_from([0, 1, 5, 100, 3000, 0, 1, 5, 100, 3000, 90000, 90000, 90000, 262100, 270000]))} for _ in range(k)]
         # pause between two submissions of one thread (virtual seconds): several hand-overs to the transport instead of one batch
@@ -273,6 +280,8 @@ def _collect(shard, seed, n):
         if any(m["size"] >= 262100 for s in case["subs"] for m in s["msgs"]):
             f.add("single-message-above-batch-limit")
         nt = (len(case["subs"]) >= 2 or "partial-write-happened" in f or "inbound-traffic" in f) and "prefix-with-switch" in f
+        if any(len(sub["msgs"]) > 30 for sub in case["subs"]):
+            f.add("bulk-list-of-messages")
         col.record(case, vs, nontrivial=nt, classes=sorted(f))
         for k in ("steps", "switches", "line_switches"):
             col.extra["total_" + k] = col.extra.get("total_" + k, 0) + info.get(k, 0)
@@ -287,16 +296,17 @@ def _rendezvous_sweep(args):
     state machine thread has left its next critical section (= handed over the next batch), and a submitter inside
     send_message()/put_message_into_send_queue() until the state machine thread has taken from the queue.  Three staggered
     messages, optional tiny partial writes and inbound data."""
-    role, thread, func, until, nmax = args
+    role, thread, func, until, nmax = args[:5]
+    kinds = args[5] if len(args) > 5 else ["req"]
     common.bootstrap()
     from .. import refdict
     refdict.all_classes()
     col = Collector(PID, RULE)
     for n in range(1, nmax + 1):
         for pw in ("full", "tiny"):
-            case = {"role": role, "subs": [{"msgs": [{"kind": "req", "size": 100}] * 3, "api": "send_message", "gap": 0.011}],
+            case = {"role": role, "subs": [{"msgs": [{"kind": kinds[j % len(kinds)], "size": 100} for j in range(3)], "api": "send_message", "gap": 0.011}],
                     "pw": pw, "sizes": [7] * 30 if pw == "tiny" else [], "inbound": ["app"] if pw == "tiny" else [], "inbound_after": 2 if pw == "tiny" else 0,
-                    "sched": [], "lines": False, "gen2": None, "holds": [[thread, "line:" + func, n, 0.5, until[0], until[1]]]}
+                    "sched": [], "lines": False, "gen2": None, "holds": [[thread, "line:" + func, n, 0.5, until[0], until[1]]] if until else [[thread, "line:" + func, n, 0.02]]}
             vs, info = run_one(case)
             col.record(case, vs, nontrivial=True, classes=["rendezvous-sweep", "role=" + role, "pw=" + pw])
     return col
@@ -308,12 +318,16 @@ def main(ctx):
     jobs = [(role, "transport_layer_thread", f, ("PSM", "lock.released"), nmax) for role in ("client", "server")
             for f in ("write", "_write", "_set_selector_events_mask", "read")] + \
            [(role, "submitter-0", f, ("PSM", "queue.get"), nmax) for role in ("client", "server") for f in ("send_message", "put_message_into_send_queue")]
+    # the state machine thread pauses (for longer than the submitter's gap) at its n-th line inside the drain of the send queue
+    # while the same submitter hands over its next message - requests and answers alternating
+    jobs += [(role, "PSM", f, None, nmax + 8, kinds) for role in ("client", "server") for f in ("send_message_from_queue", "run")
+             for kinds in (["req", "ans"], ["ans", "req"])]
     for part in common.pmap(_rendezvous_sweep, jobs):
         col.merge(part)
     col.extra["rendezvous_sweep"] = f"{len(jobs)} (thread, function) scenarios x {nmax} line positions x 2 write patterns"
     for path, rec in common.load_replays(PID):
         col.record(rec["case"], run_case(rec["case"]), nontrivial=True, classes=["replay"])
-    ctx.required_classes = ["partial-write-happened", "inbound-traffic", "prefix-with-switch", "preempted-at-source-line", "submitters=2",
+    ctx.required_classes = ["bulk-list-of-messages", "partial-write-happened", "inbound-traffic", "prefix-with-switch", "preempted-at-source-line", "submitters=2",
                             "submitters=3", "role=client", "role=server", "crosses-send-buffer-limit", "single-message-above-batch-limit"]
     ctx.assumptions = ["controlled world (see C04); partial writes accept >= 1 byte; BlockingIOError is never injected on a socket the "
                        "selector reported writable", "only DWAs owed for injected DWRs are filtered out as base traffic"]
